@@ -10,6 +10,15 @@
 // (after the owner test, before notify, inside notify_one, between the cv's unlock and suspend).
 // Monitors evaluated here on the implementation: occupancy counter, lost updates of the unprotected data,
 // per-task progress (watchdog), error codes of misuse.
+//
+// Mode "rm" (c06_rt <seed> <n> rm): pika::detail::recursive_mutex_impl<pika::mutex> (the tree has no
+// pika::recursive_mutex alias; the template is instantiated here) on 2..8 pika tasks, 4 workers: seeded programs of
+// lock / try_lock / unlock (re-entrant to depth <= 4) / write (read-yield-write of unprotected data) / yield, with
+// yields inside the critical sections so that the owner migrates between workers while it holds the mutex.
+// Monitors only (no model replay): occupancy (a first acquisition must find no other shadow owner), shadow depth
+// per owner (re-lock and try_lock by the owner succeed and the shadow depth equals the caller's nesting), lost
+// updates, no exception (pika::mutex reports a self-lock as deadlock, a foreign unlock as lock_error), progress
+// (8 s per case, 25 s process watchdog: a hang is printed as hang=1/2, never a hung check).
 #include <pika/config.hpp>
 #include <pika/init.hpp>
 #include <pika/modules/errors.hpp>
@@ -17,6 +26,7 @@
 #include <pika/synchronization/mutex.hpp>
 #include <pika/synchronization/recursive_mutex.hpp>
 #include <pika/threading_base/thread_data.hpp>
+#include <pika/threading_base/thread_num_tss.hpp>
 
 #include <atomic>
 #include <chrono>
@@ -258,11 +268,168 @@ static int run_case(int cs, int T, std::vector<std::string> const& progs, std::u
     return 0;
 }
 
+// ---------------------------------------------------------------------------------------------------
+// recursive_mutex_impl<pika::mutex> on pika tasks: monitors only
+static char const* g_kind = "MX";
+
+static int run_rm_case(int cs, int T, std::vector<std::string> const& progs, std::uint64_t cseed)
+{
+    using rmutex = pika::detail::recursive_mutex_impl<pika::mutex>;
+    struct Shared
+    {
+        rmutex m;
+        long data = 0;                 // deliberately unprotected, non-atomic
+        std::atomic<int> owner{-1};    // shadow: set after an outermost acquisition returned, cleared before the outermost unlock
+        std::atomic<int> depth{0};     // shadow nesting depth, written only by the shadow owner
+        std::atomic<int> occ_bad{0}, depth_bad{0}, owner_try_fail{0}, exc{0}, done{0};
+        std::atomic<long> writes{0}, acq{0}, reacq{0}, tryfail{0}, waited{0}, migr{0};
+    };
+    auto sh = std::make_shared<Shared>();
+    std::vector<std::atomic<int>> progress(T);
+    for (auto& x : progress) x = 0;
+    std::vector<pika::thread> th;
+    for (int t = 0; t < T; ++t)
+        th.emplace_back([sh, t, &progress, prog = progs[t], cseed] {
+            Rng r(cseed * 131 + t);
+            int my = 0;    // this task's nesting depth
+            auto acquired = [&] {
+                if (my == 0)
+                {
+                    if (sh->owner.exchange(t) != -1) ++sh->occ_bad;    // somebody else is inside
+                    if (sh->depth.exchange(1) != 0) ++sh->depth_bad;
+                    ++sh->acq;
+                }
+                else
+                {
+                    if (sh->owner.load() != t) ++sh->occ_bad;
+                    if (sh->depth.fetch_add(1) != my) ++sh->depth_bad;
+                    ++sh->reacq;
+                }
+                ++my;
+            };
+            auto release = [&] {
+                // shadow first: from the moment unlock() is entered somebody else may legitimately get in
+                if (sh->owner.load() != t) ++sh->occ_bad;
+                if (my == 1)
+                {
+                    if (sh->depth.exchange(0) != 1) ++sh->depth_bad;
+                    sh->owner.store(-1);
+                }
+                else if (sh->depth.fetch_sub(1) != my) ++sh->depth_bad;
+                --my;
+                sh->m.unlock();
+            };
+            try
+            {
+                for (char c : prog)
+                {
+                    switch (c)
+                    {
+                    case 'L':
+                        if (my >= 4) break;
+                        if (my == 0 && sh->owner.load() != -1) ++sh->waited;
+                        sh->m.lock();    // the owner re-locks without blocking (a block would be a self-deadlock: watchdog / exception)
+                        acquired();
+                        break;
+                    case 'T': {
+                        if (my >= 4) break;
+                        bool ok = sh->m.try_lock();
+                        if (ok) acquired();
+                        else if (my > 0) ++sh->owner_try_fail;    // try_lock by the owner must succeed
+                        else ++sh->tryfail;
+                        break;
+                    }
+                    case 'U':
+                        if (my > 0) release();
+                        break;
+                    case 'W':
+                        if (my > 0)
+                        {
+                            if (sh->owner.load() != t || sh->depth.load() != my) ++sh->depth_bad;
+                            long v = sh->data;
+                            unsigned k = (unsigned) r.below(4);
+                            if (k == 0) { auto w0 = pika::get_worker_thread_num(); pika::this_thread::yield(); if (pika::get_worker_thread_num() != w0) ++sh->migr; }
+                            else if (k == 1) { pika::this_thread::yield(); pika::this_thread::yield(); }
+                            else if (k == 2) spin_for_ns(r.below(3000));
+                            sh->data = v + 1;
+                            ++sh->writes;
+                        }
+                        break;
+                    default: pika::this_thread::yield(); break;
+                    }
+                    ++progress[t];
+                    ++g_heartbeat;
+                }
+                while (my > 0) release();
+            }
+            catch (...)
+            {
+                ++sh->exc;
+            }
+            ++sh->done;
+        });
+    auto t0 = std::chrono::steady_clock::now();
+    bool hang = false;
+    while (sh->done.load() < T)
+    {
+        pika::this_thread::yield();
+        if (std::chrono::steady_clock::now() - t0 > std::chrono::seconds(8)) { hang = true; break; }
+    }
+    std::ostringstream in, out;
+    in << "IN RMX " << cs << " " << T;
+    for (auto& p : progs) in << " " << (p.empty() ? "-" : p);
+    out << "OUT RMX " << cs << " occ_bad=" << sh->occ_bad.load() << " depth_bad=" << sh->depth_bad.load()
+        << " owner_try_fail=" << sh->owner_try_fail.load() << " exc=" << sh->exc.load() << " writes=" << sh->writes.load()
+        << " final=" << sh->data << " acq=" << sh->acq.load() << " reacq=" << sh->reacq.load() << " tryfail=" << sh->tryfail.load()
+        << " waited=" << sh->waited.load() << " migr=" << sh->migr.load() << " end_owner=" << sh->owner.load() << " end_depth=" << sh->depth.load()
+        << " unfinished=" << (T - sh->done.load()) << " hang=" << (hang ? 1 : 0);
+    if (hang)
+    {
+        out << " progress=";
+        for (int t = 0; t < T; ++t) out << (t ? "," : "") << progress[t].load() << "/" << progs[t].size();
+    }
+    std::printf("%s\n%s\n", in.str().c_str(), out.str().c_str());
+    std::fflush(stdout);
+    if (hang) _exit(0);    // blocked tasks cannot be cancelled; the check reports the hang
+    for (auto& x : th) x.join();
+    return 0;
+}
+
+static void rm_cases(std::uint64_t seed, int ncases)
+{
+    Rng rng(seed ^ 0x7ec0751eull);
+    for (int cs = 0; cs < ncases; ++cs)
+    {
+        g_case = cs;
+        int T = 2 + (int) rng.below(7);    // 2..8 tasks on 4 workers
+        std::vector<std::string> progs(T);
+        for (auto& p : progs)
+        {
+            int n = 3 + (int) rng.below(10);
+            for (int i = 0; i < n; ++i)
+            {
+                unsigned r = (unsigned) rng.below(16);
+                char c = r < 5 ? 'L' : r < 8 ? 'T' : r < 11 ? 'U' : r < 14 ? 'W' : 'Y';
+                p.push_back(c);
+                if ((c == 'L' || c == 'T') && rng.chance(1, 2)) p.push_back('W');
+            }
+        }
+        run_rm_case(cs, T, progs, rng.next());
+    }
+}
+
 static std::uint64_t g_seed = 1;
 static int g_ncases = 100;
+static bool g_rm = false;
 
 int pika_main()
 {
+    if (g_rm)
+    {
+        rm_cases(g_seed, g_ncases);
+        pika::finalize();
+        return 0;
+    }
     Rng rng(g_seed);
     for (int cs = 0; cs < g_ncases; ++cs)
     {
@@ -336,6 +503,8 @@ int main(int argc, char** argv)
 {
     g_seed = mix_seed(argc > 1 ? std::strtoull(argv[1], nullptr, 10) : 1);
     g_ncases = argc > 2 ? std::atoi(argv[2]) : 100;
+    g_rm = argc > 3 && std::string(argv[3]) == "rm";    // c06_rt <seed> <n> rm: recursive_mutex_impl<pika::mutex> on tasks
+    if (g_rm) g_kind = "RMX";
     pika::verif::hook.store(&hookfn, std::memory_order_release);
     // process-level watchdog: the driver task itself may get stuck inside the code under test
     std::thread([] {
@@ -349,7 +518,8 @@ int main(int argc, char** argv)
             last = h;
             if (idle >= 25)
             {
-                std::printf("OUT MX %d ev= #mon occ_bad=0 err_bad=0 writes=0 hang=2\n", g_case.load());
+                if (g_rm) std::printf("OUT RMX %d occ_bad=0 depth_bad=0 owner_try_fail=0 exc=0 hang=2\n", g_case.load());
+                else std::printf("OUT MX %d ev= #mon occ_bad=0 err_bad=0 writes=0 hang=2\n", g_case.load());
                 std::fflush(stdout);
                 _exit(0);
             }
